@@ -59,6 +59,25 @@ class Opaque:
         return f"O<{self.label}>"
 
 
+class EqOpaque:
+    """Opaque argument objects that all compare (and hash) equal although they are different objects: which one a
+    call receives is observable only through identity and through the label."""
+
+    __slots__ = ("label", "__weakref__")
+
+    def __init__(self, label):
+        self.label = label
+
+    def __eq__(self, other):
+        return type(other) is EqOpaque
+
+    def __hash__(self):
+        return 7
+
+    def __repr__(self):
+        return f"E<{self.label}>"
+
+
 class MyList(list):
     pass
 
@@ -143,7 +162,7 @@ def canon(v):
         return "S{" + ",".join(sorted(canon(x) for x in v)) + "}"
     if t is dict:
         return "D{" + ",".join(canon(k) + ":" + canon(x) for k, x in v.items()) + "}"
-    if t is Opaque:
+    if t is Opaque or t is EqOpaque:
         return repr(v)
     if t in (MyList, MyTuple, MyDict, MySet):
         return f"X<{t.__name__}:{len(v)}>"
@@ -183,10 +202,12 @@ def typed_equal(a, b):
         return canon(a) == canon(b)
     if ta is Norm:
         return typed_equal(a.v, b.v)
-    if ta is Opaque:
+    if ta is Opaque or ta is EqOpaque:
         return a is b
     if ta in (MyList, MyTuple, MyDict, MySet):
         return a is b
+    if ta is float:
+        return repr(a) == repr(b)   # 0.0 and -0.0 are different values
     return a == b
 
 
